@@ -241,6 +241,7 @@ fn add_stats(rep: &mut Report, s: &Stats) {
     rep.add("lsm.obsolete-files-lingering-until-next-pass", s.lingering);
     rep.add("lsm.transitions-validated-against-model", s.events_validated);
     rep.add("lsm.input-selections-on-real-versions-checked-against-model", s.selections_checked);
+    rep.add("lsm.scheduling-steps-checked-against-model", s.sched_steps_checked);
     rep.add("lsm.states-validated-against-model", s.states_validated);
     rep.add("lsm.directory-checks-against-retention-model", s.retention_checks);
     rep.add("lsm.entries-dropped-by-compactions", s.entries_dropped);
